@@ -648,7 +648,8 @@ def run_c10(chk):
                 mfail.append((t, e, "differs from Namespaces in XML / XPath 1.0", x + " expected " + y))
             elif x != z:
                 tdis.append((t, e, x, z))
-            if i < nb and "xml:lang" not in e:
+            # a name test on the namespace axis names a PREFIX: renaming prefixes legitimately changes its result
+            if i < nb and "xml:lang" not in e and "namespace::" not in e:
                 if frd[i] != x:
                     mfail.append((t, e, "result changes when the document's prefixes are renamed consistently (p->pp, q->qq, z->w)",
                                   x + "  /  " + frd[i]))
